@@ -380,6 +380,68 @@ VARIANTS = [
      "old": "class BinaryLLSD(SerializableBase):\n", "new": "class BinaryLLSD(SerializableBase):\n    def calc_size(self):\n        return None\n\n"},
     {"name": "P R12 Null spells out its own class-level calc_size", "file": SER, "expect": "silent",
      "old": "class Null(SerializableBase):\n", "new": "class Null(SerializableBase):\n    @classmethod\n    def calc_size(cls):\n        return 0\n\n"},
+    # ------------------------------------------------------------------ R6 callable objects instead of closures
+    {"name": "R6 deferred decode as a callable object that keeps the reader", "file": SER, "expect": "C08.R6",
+     "edits": [
+         {"file": SER, "old": "        def _deserialize_later():\n            # No context allowed, we don't want to keep any referenced objects alive\n"
+          "            return self._deserialize_inner(endianness, pod, buf, ctx=None)\n        return _deserialize_later\n",
+          "new": "        return _LaterInner(self, endianness, pod, buf)\n"},
+         {"file": SER, "old": "                self._lazy_deserialize_inner(endianness, pod, buf))\n",
+          "new": "                _LaterInner(self, reader, pod, buf))\n"},
+         {"file": SER, "old": "class TypedBytesBase(SerializableBase, abc.ABC):\n",
+          "new": "class _LaterInner:\n    def __init__(self, owner, src, plain, data):\n        self.owner = owner\n        self.src = src\n"
+                 "        self.plain = plain\n        self.data = data\n\n    def __call__(self):\n"
+                 "        return self.owner._deserialize_inner(self.src.endianness, self.plain, self.data, ctx=None)\n\n\n"
+                 "class TypedBytesBase(SerializableBase, abc.ABC):\n"}]},
+    {"name": "P R6 deferred decode as a callable object over the snapshot", "file": SER, "expect": "silent",
+     "edits": [
+         {"file": SER, "old": "        def _deserialize_later():\n            # No context allowed, we don't want to keep any referenced objects alive\n"
+          "            return self._deserialize_inner(endianness, pod, buf, ctx=None)\n        return _deserialize_later\n",
+          "new": "        return _LaterInner(self, endianness, pod, buf)\n"},
+         {"file": SER, "old": "class TypedBytesBase(SerializableBase, abc.ABC):\n",
+          "new": "class _LaterInner:\n    def __init__(self, owner, order, plain, data):\n        self.owner = owner\n        self.order = order\n"
+                 "        self.plain = plain\n        self.data = data\n\n    def __call__(self):\n"
+                 "        return self.owner._deserialize_inner(self.order, self.plain, self.data, ctx=None)\n\n\n"
+                 "class TypedBytesBase(SerializableBase, abc.ABC):\n"}]},
+    # ------------------------------------------------------------------ state attribute instead of flag pair
+    {"name": "P R1/R2/R9 Collection folds its two length attributes into a mode string set in __init__", "file": SER,
+     "expect": "silent",
+     "edits": [
+         {"file": SER, "old": "        elif isinstance(length, int):\n            self._length = length\n\n"
+          "    def serialize(self, entries, writer: BufferWriter, ctx):\n        if self._len_spec:\n",
+          "new": "        elif isinstance(length, int):\n            self._length = length\n"
+                 "        if self._len_spec:\n            self._mode = \"prefixed\"\n        elif self._length:\n"
+                 "            self._mode = \"counted\"\n        else:\n            self._mode = \"greedy\"\n\n"
+                 "    def serialize(self, entries, writer: BufferWriter, ctx):\n        if self._mode == \"prefixed\":\n"},
+         {"file": SER, "old": "                raise ValueError(f\"{len(entries)} is wider than {max_len}\")\n        elif self._length:\n",
+          "new": "                raise ValueError(f\"{len(entries)} is wider than {max_len}\")\n        elif self._mode == \"counted\":\n"},
+         {"file": SER, "old": "        if self._len_spec or self._length:\n            if self._len_spec:\n                size = reader.read(",
+          "new": "        if self._mode != \"greedy\":\n            if self._mode == \"prefixed\":\n                size = reader.read("}]},
+    # ------------------------------------------------------------------ R13
+    {"name": "R13 SegmentSerializer keeps one scratch writer on the instance", "file": MESH, "expect": "C08.R13",
+     "edits": [
+         {"file": MESH, "old": "        self._templates: Dict[str, se.SerializableBase] = templates\n",
+          "new": "        self._templates: Dict[str, se.SerializableBase] = templates\n        self._scratch = se.BufferWriter(\"<\")\n"},
+         {"file": MESH, "old": "                writer = se.BufferWriter(\"<\")\n                writer.write(self._templates[key], val)\n",
+          "new": "                writer = self._scratch\n                writer.clear()\n                writer.write(self._templates[key], val)\n"}]},
+    {"name": "P R13 TypedBytesBase builds its per-call window in a helper", "file": SER, "expect": "silent",
+     "edits": [
+         {"file": SER, "old": "            inner_writer = BufferWriter(writer.endianness)\n            inner_writer.write(self._spec, val, ctx=ctx)\n",
+          "new": "            inner_writer = self._new_window(writer)\n            inner_writer.write(self._spec, val, ctx=ctx)\n"},
+         {"file": SER, "old": "    def _lazy_deserialize_inner(self, endianness, pod, buf):\n",
+          "new": "    def _new_window(self, outer):\n        return BufferWriter(outer.endianness)\n\n"
+                 "    def _lazy_deserialize_inner(self, endianness, pod, buf):\n"}]},
+    # ------------------------------------------------------------------ R14
+    {"name": "R14 scoped_seek seeks back only when the block succeeds", "file": SER, "expect": "C08.R14",
+     "old": "        try:\n            self.seek(pos=pos, whence=whence)\n            yield\n        finally:\n            self.seek(old_pos)\n",
+     "new": "        self.seek(pos=pos, whence=whence)\n        yield\n        self.seek(old_pos)\n"},
+    {"name": "R14 FlagSwitch switches the caller's reader out of pod mode by hand, no finally", "file": SER, "expect": "C08.R14",
+     "old": "        with reader.scoped_pod(pod=False):\n            flags = int(self._flag_spec.deserialize(reader, ctx=ctx))\n",
+     "new": "        was_pod = reader.pod\n        reader.pod = False\n        flags = int(self._flag_spec.deserialize(reader, ctx=ctx))\n"
+            "        reader.pod = was_pod\n"},
+    {"name": "P R14 scoped_pod sets the flag before entering the try", "file": SER, "expect": "silent",
+     "old": "        old_pod = self.pod\n        try:\n            self.pod = pod\n            yield\n",
+     "new": "        old_pod = self.pod\n        self.pod = pod\n        try:\n            yield\n"},
     # ------------------------------------------------------------------ documented limits (value level)
     {"name": "X Str strips NULs on both ends (same wire shape, different value)", "file": SER, "expect": "miss",
      "old": "                instance += b\"\\x00\"\n        writer.write(self._bytes_tmpl, instance, ctx=ctx)\n\n"
